@@ -179,6 +179,8 @@ func genMixedLists(t *rapid.T, fileChance int) (lists []ListSpec, models []NetMo
 		{Pat: "||example.org^", DPerm: []string{"a.com"}},
 		{Pat: "||example.org^", Exc: true, CPerm: []Cli{{"cidr", "10.0.0.0/8"}}, Extra: []string{"important"}},
 		{Pat: "example", GRestr: []string{"pc"}, Deny: []string{"b.net"}},
+		{Pat: "||1.2.3.4^", Deny: []string{"b.net"}},
+		{Pat: "1.2.", Deny: []string{"x-y.net"}, QPerm: []string{"A"}},
 		{Pat: "||a.com^", Exc: true, Extra: []string{"document"}},
 		{Pat: "||b.net^", Exc: true, Extra: []string{"genericblock"}},
 		// $domain rules on several levels of one source host (domain-table buckets walked in order)
@@ -300,7 +302,14 @@ func genFieldToggleQueries(t *rapid.T) []Q {
 // genBlockQueries returns questions aimed at the rule blocks of genMixedLists
 // (asked in the returned order).
 func genBlockQueries(t *rapid.T) []Q {
-	switch rapid.IntRange(0, 3).Draw(t, "block") {
+	switch rapid.IntRange(0, 4).Draw(t, "block") {
+	case 4:
+		// address literals and domain names in turn (a $denyallow rule treats the two kinds differently)
+		var out []Q
+		for i := rapid.IntRange(3, 7).Draw(t, "nmixed"); i > 0; i-- {
+			out = append(out, Q{Host: true, Hostname: pick(t, "mixed-host", []string{"1.2.3.4", "example.org", "1.2.9.9", "sub.example.org", "1.2.3.4", "example.org"}), DNSType: pick(t, "mixed-type", []string{"", "A"})})
+		}
+		return out
 	case 3:
 		// named clients asking for the host of the rule with many client names
 		var out []Q
